@@ -210,6 +210,9 @@ def eval_value(e: ast.AST, env: Dict[str, Any]) -> Any:
         if isinstance(fn, ast.Name):
             if fn.id in _IDENTITY_CALLS and len(args) == 1:
                 return args[0]
+            if fn.id in ('range', 'xrange') and not kw and 1 <= len(args) <= 3 and all(type(a) is int for a in args) \
+                    and not (len(args) == 3 and args[2] == 0):
+                return range(*args)
             if fn.id in ('len', 'int', 'str', 'bytes', 'min', 'max', 'abs', 'bool', 'ord', 'chr') and not kw:
                 if fn.id == 'bytes' and args and isinstance(args[0], int):
                     raise CannotEvaluate('bytes(n)')
